@@ -137,6 +137,37 @@ def run(ctx):
                     "behaviour at the exact cost limit differs from the model")
     else:
         rep.evaluations += len(lines) + len(l2)
+    # the generator entry points (run_block_generator, run_block_generator2): exact limit and consistent sub-totals,
+    # evaluated on the implementation alone by harness op gen.oracle04 (unit gen's case generator and binary)
+    try:
+        import genlib as G
+        okg, logg, _ = C.step_harness("gen")
+        if not okg:
+            raise RuntimeError("vh_gen does not build: " + logg[-600:])
+        env = G.Env(rng.fork("genenv"))
+        gcases = []
+        for i in range(150 if tier == "quick" else 1500):
+            gcases.append(env.case(want_valid=(i % 3 != 2)))
+        for c in gcases:
+            if c["max_cost"] > G.BLOCK:
+                c["max_cost"] = G.BLOCK
+        gl = ["gen.oracle04 %d %d %s %s" % (c["flags"], c["max_cost"], G.hexo(c["program"]), G.refs_tok(c["refs"])) for c in gcases]
+        go = G.vh(gl, timeout=1800)
+        st = {"cases": len(gl), "legacy_accept": 0, "native_accept": 0, "both_reject": 0}
+        for l, o in zip(gl, go):
+            rep.evaluations += 1
+            if ":FAIL:" in o or o.startswith("PANIC") or o.startswith("ERR"):
+                rep.add_failure("gen.oracle04", l, o, None,
+                                "a generator entry point reports a cost above its limit, inconsistent sub-totals, or the limit is not exact "
+                                "(limit = cost must reproduce the result, limit = cost-1 must fail with a cost error)")
+            st["legacy_accept"] += "legacy:ok" in o
+            st["native_accept"] += "native:ok" in o
+            st["both_reject"] += o == "legacy:reject native:reject"
+            if "ok" in o:
+                rep.nontrivial.add(("gen.oracle04", o.count(":ok"), l.split(" ")[1]))
+        rep.streams["gen.oracle04"] = st
+    except Exception as ex:      # the oracle is an addition: a broken generator harness is reported, not hidden
+        rep.add_broken("harness", "gen.oracle04", "generator-level cost oracle could not run: %r" % (ex,))
     ul = ["cond.ucost %d" % i for i in range(65536)]
     ui = C.run_lines(C.VH(UNIT), ul)
     tb = table()
